@@ -9,7 +9,7 @@ from ..core import Ctx
 from ..effects import STORAGE_WRITES
 from ..flow import names_in
 from ..model import AnalysisError, FunctionInfo, dotted, norm_text
-from .common import edge_target, fold_str, hint_value, hint_writers, kwarg, path_arg, reachable_from
+from .common import owner_tops, edge_target, fold_str, hint_value, hint_writers, kwarg, path_arg, reachable_from
 
 EXPLANATION = (
     "Static analysis of the write-once namespace: every storage-API write site of the package is enumerated and "
@@ -135,13 +135,14 @@ def r1_fresh_names(ctx: Ctx, rid: str) -> None:
         top = f
         while top.parent is not None:
             top = top.parent
+        owners = owner_tops(ctx, f)
         if s == hv:
-            ctx.ob(rid, f, f"{op}(HINT) only in sanctioned functions", n, top.qname in sanctioned_hint,
+            ctx.ob(rid, f, f"{op}(HINT) only in sanctioned functions", n, bool(owners) and all(o.qname in sanctioned_hint for o in owners),
                    "the version hint has exactly two writers: table initialisation and the commit point",
                    nontrivial=False)
             continue
         if s is not None and s.startswith(MARKER_PREFIX):
-            ctx.ob(rid, f, f"{op}(in-flight marker)", n, top.name == "_register_inflight",
+            ctx.ob(rid, f, f"{op}(in-flight marker)", n, bool(owners) and all(o.name == "_register_inflight" for o in owners),
                    "markers live under metadata/inflight/ and are written only by _register_inflight", nontrivial=False)
             continue
         fresh = is_fresh(ctx, f, pa, n.id)
@@ -235,10 +236,9 @@ def delete_sites(ctx: Ctx) -> List[Tuple[FunctionInfo, Node, str]]:
 def r3(ctx: Ctx) -> None:
     ctx.rule("C09.R3", "who may delete: every delete-capable sink of the package lies in a sanctioned owner function", 14)
     for f, n, what in delete_sites(ctx):
-        top = f
-        while top.parent is not None:
-            top = top.parent
-        reason = DELETE_OWNERS.get(top.qname)
+        owners = owner_tops(ctx, f)
+        reasons = [DELETE_OWNERS.get(o.qname) for o in owners]
+        reason = reasons[0] if owners and all(r is not None for r in reasons) else None
         ctx.ob("C09.R3", f, f"{what} site", n, reason is not None,
                (f"sanctioned: {reason}" if reason else "a delete-capable call outside the sanctioned owners: files of "
                 "retained snapshots could be removed"), nontrivial=False)
